@@ -58,7 +58,38 @@ class C20(ProgProp):
                 "faults": {"items": {}, "flushes": {}, "ctx": {}}, "prio": gen.gen_prio(rng, kinds),
                 "prio_nonempty": True, "max_stack": rng.randint(3, depth + 2)}
 
+    def _ties_motif(self, rng):
+        """Several pending batches of equal priority (the choice among them is the set's
+        iteration order, i.e. the seeded hashes) - with profiling on."""
+        kinds = rng.randint(2, 3)
+
+        def leaf():
+            return {"kind": "fn", "steps": [["y", ["item", None, rng.randint(0, 4)]] for _ in range(rng.randint(1, 2))]}
+        templates = [None] + [leaf() for _ in range(kinds)]
+        for i in range(kinds):
+            for st in templates[1 + i]["steps"]:
+                st[1][1] = (i + (0 if st is templates[1 + i]["steps"][0] else rng.randint(0, kinds - 1))) % kinds
+        calls = [["call", 1 + i, []] for i in range(kinds)]
+        rng.shuffle(calls)
+        templates[0] = {"kind": "fn", "steps": [["y", [rng.choice(["t", "l"]), calls]]]}
+        return {"templates": templates, "root": {"tmpl": 0, "conv": rng.choice(["call", "value", "wrapped"])},
+                "kinds": kinds, "svs": 1, "yield_only": True, "reentry": False,
+                "faults": {"items": {}, "flushes": {}, "ctx": {}},
+                "prio": {"policy": rng.choice(["default", "const"]), "vals": {str(i): 1 for i in range(kinds)},
+                         "hashes": {"order": [rng.randint(0, 7) for _ in range(5)]}}}
+
     def gen(self, rng, tier, k):
+        if k % 8 == 3:
+            which = rng.choice(["ties", "oob_flush_dump", "oob_state_dump"])
+            clock = {"seed": rng.randint(0, 10 ** 6), "mode": rng.choice(["small", "mixed", "huge"])}
+            if which == "ties":
+                return {"spec": self._ties_motif(rng), "options": {"COLLECT_PERF_STATS": True}, "clock": clock, "dump_interval": 1}
+            spec = gen.motif_out_of_band_flush(rng)
+            spec.pop("options", None)
+            if which == "oob_flush_dump":
+                return {"spec": spec, "options": {"DUMP_FLUSH_BATCH": True}, "clock": clock, "dump_interval": 1}
+            spec["prio_nonempty"] = True
+            return {"spec": spec, "options": {"DUMP_SCHEDULER_STATE": True}, "clock": {"seed": clock["seed"], "mode": "huge"}, "dump_interval": 0}
         if k % 16 == 5:
             spec = self._guard_motif(rng)
             options = {"DUMP_PRE_ERROR_STATE": not real.DEFAULT_OPTIONS["DUMP_PRE_ERROR_STATE"]}
